@@ -507,3 +507,78 @@ class Program:
                     out.append(self.by_id[fu])
                     break
         return out
+
+
+def reaching_defs(body, l, at_bb):
+    """whole definitions of local l that can reach the terminator of at_bb without passing another
+    whole definition of l"""
+    du = defuse(body)
+    defs = du.whole_defs(l)
+    dblocks = {d[0] for d in defs}
+    out = []
+    for d in defs:
+        if d[0] == at_bb:
+            # a def in the same block precedes the terminator
+            later = [x for x in defs if x[0] == at_bb and x is not d and x[1] != 'term' and d[1] != 'term' and x[1] > d[1]]
+            if d[1] != 'term' and not later:
+                out.append(d)
+            continue
+        others = dblocks - {d[0]}
+        if at_bb in body.reachable_after(d[0]) and at_bb in _reach_avoid(body, d[0], others):
+            # and no other def later in d's own block
+            if not [x for x in defs if x[0] == d[0] and x is not d and x[1] != 'term' and d[1] != 'term' and x[1] > d[1]]:
+                out.append(d)
+    # a def inside at_bb shadows the others
+    inblock = [d for d in out if d[0] == at_bb]
+    return inblock[-1:] if inblock else out
+
+
+def _reach_avoid(body, start, avoid):
+    seen = set()
+    st = list(body.succ[start])
+    while st:
+        b = st.pop()
+        if b in seen:
+            continue
+        seen.add(b)
+        if b in avoid:
+            continue      # reach it, but do not go through it
+        st.extend(body.succ[b])
+    return seen
+
+
+def trace_operand_at(body, op, at_bb, **kw):
+    """like trace_operand, but a multi-definition local is first narrowed to the definitions that
+    reach at_bb (flow-sensitive at the first hop only)"""
+    pl = op_place(op)
+    if pl is None:
+        return trace_operand(body, op, **kw)
+    l = pl['l']
+    du = defuse(body)
+    for _ in range(30):
+        defs = du.whole_defs(l)
+        if len(defs) == 1 and defs[0][2] == 'assign' and defs[0][3]['k'] == 'use' and op_local(defs[0][3]['op']) is not None and not pl['p']:
+            at_bb = defs[0][0]
+            l = op_local(defs[0][3]['op'])
+            continue
+        break
+    defs = du.whole_defs(l)
+    if len(defs) <= 1 or pl['p']:
+        return trace_operand(body, op, **kw)
+    rd = reaching_defs(body, l, at_bb)
+    if len(rd) != 1:
+        return trace_operand(body, op, **kw)
+    (b, i, kind, payload, dproj) = rd[0]
+    if kind == 'call':
+        c = payload
+        tc = kw.get('through_calls', TRANSPARENT_CALLS)
+        if c.callee in tc and c.args:
+            return trace_operand(body, c.args[0], **kw)
+        return {Origin('callres', c, ())}
+    if kind == 'assign':
+        rv = payload
+        if rv['k'] == 'use':
+            return trace_operand_at(body, rv['op'], b, **kw)
+        if rv['k'] in ('ref', 'copy_for_deref'):
+            return trace_place(body, rv['pl'], **kw)
+    return trace_operand(body, op, **kw)
